@@ -475,7 +475,7 @@ class Workspace:
             disp += ['        _ => "no_such_decl".to_string(),', "    }", "}"]
             src = "use super::rt;\n" + "\n\n".join(mods) + "\n\n" + "\n".join(disp) + "\n"
             write_if_changed(os.path.join(cdir, "src", "decls.rs"), src)
-        ws = "[workspace]\nresolver = \"2\"\nmembers = [%s]\n\n[profile.dev]\ndebug = false\nincremental = false\n\n[profile.release]\nopt-level = 1\noverflow-checks = false\n" % ", ".join('"%s"' % m for m in members)
+        ws = "[workspace]\nresolver = \"2\"\nmembers = [%s]\n\n[profile.dev]\ndebug = false\nincremental = false\n\n[profile.release]\nopt-level = 0\ndebug = false\nincremental = false\ndebug-assertions = false\noverflow-checks = false\n" % ", ".join('"%s"' % m for m in members)
         write_if_changed(os.path.join(self.dir, "Cargo.toml"), ws)
         lock = os.path.join(self.dir, "Cargo.lock")
         if not os.path.exists(lock):
